@@ -86,6 +86,8 @@ def plan(ck):
                                         'a$b', '$@', 'a @b', '$$', 'a $(x)']))
     # (the word is not the subject: which step receives it is)
     by['dep_link'] = [w for w in few if w][:12 if ck.quick else 60]
+    by['wa_link'] = [w for w in few if w][:6 if ck.quick else 30]
+    by['gopt_rep'] = [w for w in few if w][:18 if ck.quick else 90]
     by['tool_word'] = [w for w in few if w and "'" not in w and
                        '"' not in w][:24 if ck.quick else 120]
     return by
